@@ -7,7 +7,7 @@ from . import rng, specs, values
 from .codec import Zoo
 
 
-def project(draw, v, p=3):
+def project(draw, v, p=2):
     """Partial projection of a value: drop dict keys at any depth (also inside lists)."""
     if isinstance(v, dict):
         out = {}
@@ -67,9 +67,20 @@ HOSTILE_KINDS = PLAIN_KINDS + ["zoo", "zoo", "ellipsis", "junk"]
 
 
 @st.composite
-def subst_case(draw, kinds=PLAIN_KINDS, sat=True, depth_choices=(0, 1, 1, 2, 2, 3)):
-    spec = draw(specs.spec_strategy(depth=draw(st.sampled_from(list(depth_choices))),
-                                    sat=sat if isinstance(sat, bool) else draw(st.booleans())))
+def subst_case(draw, kinds=PLAIN_KINDS, sat=True, depth_choices=(0, 1, 1, 2, 2, 3), dict_bias=0):
+    depth = draw(st.sampled_from(list(depth_choices)))
+    if dict_bias and draw(st.integers(0, 9)) < dict_bias:
+        # a declared dict (possibly inside a typed list): the shape partial substitution is about
+        opts = dict(alias=True, patterns=True, custom=False, derived=False)
+        spec = draw(specs.dict_spec(max(depth, 1), True, opts))
+        if "entries" in spec and len(spec["entries"]) < 2:
+            spec["entries"].append({"key": "extra-member", "opt": draw(st.booleans()),
+                                    "spec": draw(specs.spec_strategy(depth=0, sat=True))})
+        if draw(st.integers(0, 3)) == 0:
+            spec = {"t": "list", "form": "typed", "elem": spec}
+    else:
+        spec = draw(specs.spec_strategy(depth=depth,
+                                        sat=sat if isinstance(sat, bool) else draw(st.booleans())))
     kind = draw(st.sampled_from(kinds))
     full = None
     try:
@@ -143,3 +154,34 @@ def float_tolerance(spec):
     """1.01 * 10**-p for the coarsest precision p declared anywhere in the spec tree, else 0."""
     ps = [s["precision"] for s, _ in specs.walk(spec) if s["t"] == "float" and "precision" in s]
     return 1.01 * 10.0 ** -min(ps) if ps else 0.0
+
+
+@st.composite
+def subst_case_with_probes(draw, kinds=PLAIN_KINDS, dict_bias=0):
+    """subst_case plus third values w: perturbations of v and of the full conforming value,
+    spec-aware near-misses of the original spec (tolerance nudges, +-1 lengths, extra / dropped
+    keys, out-of-alphabet characters, out-of-bound numbers)."""
+    c = draw(subst_case(kinds=kinds, sat=True, dict_bias=dict_bias))
+    probes = []
+    v = c["value"]
+    for _ in range(3):
+        probes.append(draw(values.perturb(v))[0])
+    if c["full"] is not None:
+        probes.append(c["full"])
+        for _ in range(2):
+            probes.append(draw(values.perturb(c["full"]))[0])
+        try:
+            probes.append(draw(values.near(c["spec"]))[0])
+            probes.append(draw(values.conforming(c["spec"])))
+        except values.Unsat:
+            pass
+    # float nudges inside / just outside the tolerance at every float leaf of v
+    fl = [p for p in values.paths(v) if isinstance(values.get_at(v, p), float)]
+    if fl:
+        p = draw(st.sampled_from(fl))
+        x = values.get_at(v, p)
+        if math.isfinite(x):
+            for y in (x * (1 + 1e-10), x * (1 - 1e-10), x + 0.04, x - 0.04, math.nextafter(x, math.inf)):
+                probes.append(values.replace_at(v, p, y))
+    c["probes"] = probes
+    return c
